@@ -609,8 +609,8 @@ def o3_fresh_owner_escapes(prog):
 
 @rule('O5', props=['C04', 'C01', 'C05'], floor=3, configs=('all', 'default'))
 def o5_packed_buffer_linearity(prog):
-    """Packed row buffer: every cursor advance by size_of::<T>() is preceded on the same path by a read
-    (consumed: pushed or dropped) or a write of a T at the pre-advance cursor; the spare component is
+    """Packed row buffer: every cursor advance by size_of::<T>() is accompanied on the same path by a read
+    (consumed: pushed or dropped) or a write of a T at the pre-advance cursor position; the spare component is
     `assume_init`-ed at most once and only under its TypeId guard."""
     r = Result()
     for fn, imp in walk_fns(prog):
@@ -632,7 +632,9 @@ def o5_packed_buffer_linearity(prog):
                 cur = e['buf']
                 T = e['by']
                 ok = False
-                for j in range(i - 1, -1, -1):
+                # the read (or write) of the value at the pre-advance position may come before or after the cursor
+                # is bumped (a `read_next(&mut cursor)` helper bumps first and reads through the saved pointer)
+                for j in list(range(i - 1, -1, -1)) + list(range(i + 1, len(evs))):
                     w = evs[j]
                     if w['k'] == 'ptr_read' and w['src'][0] == 'tptr' and w['src'][1] == cur and w['src'][2] == T:
                         # consumed?
